@@ -385,10 +385,16 @@ def gen_case(rng, tier):
                     vs.append(v)
             for v in vs:
                 note(v)
+            # a label occurring more than once in `terms` (x*x = x for 0/1 values, s*s = 1 for spins: the cross term of two
+            # occurrences is linear resp. constant), and the call made through a .spin / .binary handle, which takes the
+            # pure-Python fallback on every back-end (round-6 miss C04 r6m1)
+            if vs and rng.random() < 0.35:
+                for _k in range(rng.randint(1, 2)):
+                    vs.insert(rng.randint(0, len(vs)), rng.choice(vs))
             nz = [1, -1, 2, -2, Fraction(1, 2), 3]
             op = [name, [[v, str(rng.choice(nz))] for v in vs], str(rng.choice([1, 2, Fraction(1, 2), -1])),
                   str(rng.choice([0, 1, -1, 2, Fraction(1, 2)]))]
-            h = "base"
+            h = rng.choice(["base", "base", "spin", "binary"])
         elif name == "q_add_variable":
             vt = rng.choice(['BINARY', 'SPIN', 'INTEGER', 'INTEGER', 'REAL'])
             v = lab(0.25); note(v)
@@ -448,6 +454,13 @@ def gen_case(rng, tier):
         st = {"h": h, "op": op}
         if name in VIA and rng.random() < 0.4:
             st["via"] = rng.choice(VIA[name])
+        if name == "scale" and rng.random() < 0.2:
+            # the model as its own operand (round-6 miss C04 r6m2): m.update(m) and m += m double every coefficient, m -= m
+            # (also through another name for the same object) leaves the zero polynomial over the same variables and
+            # interactions; __isub__ must copy an aliased operand before it negates the receiver
+            sv = rng.choice(["self_update", "self_iadd", "self_isub", "self_isub_alias"])
+            st = {"h": "base", "op": [name, "0" if "isub" in sv else "2", None, None, False], "via": sv}
+            op = st["op"]
         if name == "scale" and op[2] is not None:
             # every documented argument form: any iterable, including one-shot iterators
             st["form"] = [rng.choice(["list", "tuple", "set", "frozenset", "iter", "dictkeys"]),
@@ -903,7 +916,16 @@ def run_op(t, hname, op, T, avoid, form=(), via=None):
             k = F(op[1])
             if op[2] is None:
                 coq = f"(OScale {cq(k)} [] [] false)"
-                if via == "imul":
+                if via in ("self_update", "self_iadd") and k == 2 and hobj is m:
+                    if via == "self_update":
+                        m.update(m)
+                    elif m.__iadd__(m) is not m:
+                        raise AssertionError("__iadd__ did not return the model itself")
+                elif via in ("self_isub", "self_isub_alias") and k == 0 and hobj is m:
+                    alias = m if via == "self_isub" else [m][0]
+                    if m.__isub__(alias) is not m:
+                        raise AssertionError("__isub__ did not return the model itself")
+                elif via == "imul":
                     if hobj.__imul__(float(k)) is not hobj:
                         raise AssertionError("__imul__ did not return the model itself")
                 elif via == "itruediv" and k != 0 and bits(1 / k) <= 1:
@@ -1041,7 +1063,7 @@ def run_op(t, hname, op, T, avoid, form=(), via=None):
 COMPOSITE = {"fix_many", "normalize", "eq_constraint"}
 
 
-def expand_composite(m, op, T):
+def expand_composite(m, op, T, hvartype=None):
     """-> (list of (Coq op, function applying the primitive to a model), function applying the composite call).
     The primitives are the documented meaning of the composite call, in the order its loop makes them."""
     name = op[0]
@@ -1085,7 +1107,7 @@ def expand_composite(m, op, T):
     if name == "eq_constraint":
         terms = [(dec_label(v), F(a)) for v, a in op[1]]
         lam, c = F(op[2]), F(op[3])
-        spin = m.vartype is Vartype.SPIN
+        spin = (hvartype if hvartype is not None else m.vartype) is Vartype.SPIN
         prims = []
 
         def add_off(delta):
@@ -1101,6 +1123,13 @@ def expand_composite(m, op, T):
                     else:
                         prims.append((f"(OAddLinear {N(u)} {cq(lam * a * (2 * c + a))})",
                                       (lambda mm, u=u, x=lam * a * (2 * c + a): mm.add_linear(u, float(x)))))
+                elif lkey(u) == lkey(v):
+                    # two occurrences of one variable: 2*lam*a*b*x*x
+                    if spin:
+                        prims.append(add_off(2 * lam * a * b))
+                    else:
+                        prims.append((f"(OAddLinear {N(u)} {cq(2 * lam * a * b)})",
+                                      (lambda mm, u=u, x=2 * lam * a * b: mm.add_linear(u, float(x)))))
                 else:
                     prims.append((f"(OAddQuadratic {N(u)} {N(v)} {cq(2 * lam * a * b)})",
                                   (lambda mm, u=u, v=v, x=2 * lam * a * b: mm.add_quadratic(u, v, float(x)))))
@@ -1110,21 +1139,25 @@ def expand_composite(m, op, T):
     raise RuntimeError(name)
 
 
-def run_composite(t, op, T):
+def run_composite(t, op, T, hname="base"):
     """the composite call on the model, its documented primitive sequence on a deep copy.
-    -> (intermediate [(Coq op, dump)], (Coq op of the last primitive, exception of the composite call)) or None"""
-    prims, comp = expand_composite(t.m, op, T)
+    -> (intermediate [(Coq op, dump)], (Coq op of the last primitive, exception of the composite call), handle term) or None
+    eq_constraint may be issued through a .spin / .binary handle: then the primitives are made through the same handle of
+    the deep copy (the constraint is stated over the handle's variables)"""
+    via = hname in ("spin", "binary") and op[0] == "eq_constraint" and not is_qm(t.m)
+    hof = (lambda mm: getattr(mm, hname)) if via else (lambda mm: mm)
+    prims, comp = expand_composite(t.m, op, T, hof(t.m).vartype if via else None)
     clone = copy.deepcopy(t.m)
     seq = []
     exc = None
     for pr in prims:
         if pr[0] == "OFFSET":
-            new = F(clone.offset) + pr[1]
+            new = F(hof(clone).offset) + pr[1]
             coq, fn = f"(OSetOffset {cq(new)})", (lambda mm, x=new: setattr(mm, "offset", float(x)))
         else:
             coq, fn = pr
         try:
-            fn(clone)
+            fn(hof(clone))
         except Exception as e:   # noqa
             exc = e
         seq.append((coq, observe(clone)[0]))
@@ -1132,7 +1165,7 @@ def run_composite(t, op, T):
             break
     rexc = None
     try:
-        comp(t.m)
+        comp(hof(t.m))
     except AssertionError:
         raise
     except Exception as e:   # noqa
@@ -1141,7 +1174,7 @@ def run_composite(t, op, T):
         raise AssertionError(f"{op[0]} ended with {outcome_term(rexc)} ({rexc!r}) but its primitive sequence with {outcome_term(exc)} ({exc!r})")
     if not seq:
         return None
-    return seq[:-1], (seq[-1][0], rexc)
+    return seq[:-1], (seq[-1][0], rexc), (t.hterm(hof(t.m)) if via else "Direct")
 
 
 def outcome_term(exc):
@@ -1180,12 +1213,11 @@ def run_case(c):
         for t in targets:
             try:
                 if name in COMPOSITE:
-                    rc = run_composite(t, op, T)
+                    rc = run_composite(t, op, T, h)
                     if rc is None:
                         skip = True
                         break
-                    pres[t.name], (coq, exc) = rc
-                    hterm = "Direct"
+                    pres[t.name], (coq, exc), hterm = rc
                 else:
                     coq, hterm, exc = run_op(t, h, op, T, avoid, st.get("form") or (), st.get("via"))
             except AssertionError as e:
@@ -1212,7 +1244,7 @@ def run_case(c):
             out = outcome_term(exc)
             for pcoq, pd in pres.get(t.name, []):
                 # primitives of a composite call: intermediate states as its documented meaning reaches them (on a deep copy)
-                t.steps.append(f"(mkStep Direct {pcoq} Ok {coq_dump(pd, T)})")
+                t.steps.append(f"(mkStep {hterm if name == 'eq_constraint' else 'Direct'} {pcoq} Ok {coq_dump(pd, T)})")
             t.steps.append(f"(mkStep {hterm} {coq} {out} {coq_dump(d, T)})")
             t.prev = d
             if exc is None:
